@@ -26,6 +26,8 @@ var effectFreePkgs = []string{
 var effectFreeFuncs = map[string]bool{
 	"(*sync.Mutex).Lock": true, "(*sync.Mutex).Unlock": true, "(*sync.RWMutex).Lock": true, "(*sync.RWMutex).Unlock": true,
 	"(*sync.RWMutex).RLock": true, "(*sync.RWMutex).RUnlock": true,
+	// a WaitGroup's methods touch only the WaitGroup (Add can panic on a negative counter: not modelled)
+	"(*sync.WaitGroup).Add": true, "(*sync.WaitGroup).Done": true, "(*sync.WaitGroup).Wait": true,
 	"encoding/json.Marshal": true, "reflect.DeepEqual": true, "reflect.TypeOf": true, "reflect.ValueOf": true,
 	"bytes.Equal": true, "bytes.Compare": true, "sort.SearchStrings": true, "sort.StringsAreSorted": true,
 	"(context.Context).Done": true, "(context.Context).Err": true, "(context.Context).Value": true, "(context.Context).Deadline": true,
@@ -186,7 +188,11 @@ func (f *frame) call(instr ssa.Instruction, common *ssa.CallCommon, st *State, r
 			return x.applyContract(ct, key, callee, sig, common.IsInvoke(), args, resT, st, reach, instr.Pos())
 		}
 	}
-	if callee != nil && x.canInline(callee, f) {
+	// generated enum stringers index descriptor tables of the protobuf runtime: treated as effect-free
+	// results, not inlined
+	enumStringer := callee != nil && strings.HasSuffix(key, ").String") && isProtoPkg(pkgOfKey(key)) && len(callee.Params) == 1 &&
+		func() bool { _, isPtr := callee.Params[0].Type().(*types.Pointer); return !isPtr }()
+	if callee != nil && !enumStringer && x.canInline(callee, f) {
 		return x.inline(f, callee, args, bindings, resT, st, reach, instr.Pos())
 	}
 	effectFree := false
